@@ -739,10 +739,15 @@ def op_read(st, o):
             raise Violation("damaged.wrong_field", f"{rel}: file cut in the footer at {pm.damage[2]} read as a different field: " + "; ".join(bad[:4]), preds=["cut", where, pm.rep] + (["foreign"] if pm.foreign else []), kind="F")
         return "read-complete"
     if res.raised:
+        extra = []
+        if pm.fmt == "vtk" and pm.rep == "txt" and pm.subs and pm.foreign is None and _long_coordinates(pm):
+            # recorded finding: the text form keeps ~11 digits of the grid coordinates, the side-car keeps
+            # the subregion corners exactly; the rebuilt mesh then refuses its own subregions
+            extra = ["txt-long-coordinates"]
         raise Violation(
             "read.raised",
             f"from_file({rel}) [{pm.fmt}/{pm.rep} {pm.opts}, write #{pm.n_writes} to this path{', foreign ' + str(pm.foreign) if pm.foreign else ''}] raised {type(res.e).__name__}: {str(res.e)[:300]}",
-            preds=[pm.fmt, type(res.e).__name__, "foreign" if pm.foreign else "own", "reused" if pm.n_writes > 1 else "fresh"],
+            preds=[pm.fmt, type(res.e).__name__, "foreign" if pm.foreign else "own", "reused" if pm.n_writes > 1 else "fresh"] + extra,
             kind="S",
         )
     bad = CHECK_READ[pm.fmt](st, res.v, pm) if pm.foreign is None else check_foreign(st, res.v, pm)
@@ -759,6 +764,13 @@ def op_read(st, o):
         st.f[o["keep"]] = (res.v, pm.fs)
         st.next_slot = max(st.next_slot, o["keep"] + 1)
     return "read-ok"
+
+
+def _long_coordinates(pm):
+    """Whether some corner of the mesh or of a subregion needs more than ten significant digits."""
+    mm = pm.fs.mesh
+    xs = [float(x) for x in list(mm.region.pmin) + list(mm.region.pmax)] + [float(x) for _, sr in (pm.subs or []) for x in list(sr.pmin) + list(sr.pmax)]
+    return any(float("%.10g" % x) != x for x in xs)
 
 
 def _cls(msg):
